@@ -50,6 +50,12 @@ pub struct Unit {
     /// redirected elsewhere (they are not input of the shell)
     #[serde(default)]
     pub foreign0: u32,
+    /// the unit empties the script file (`: >/work/script.sh`): a shell that
+    /// runs that file as a command file reads it line by line, so it finds the
+    /// end of the file next and executes nothing more (elsewhere the line only
+    /// creates an empty file)
+    #[serde(default)]
+    pub truncates_script: bool,
 }
 
 #[derive(Clone, Copy, Debug, Serialize, Deserialize, PartialEq, Eq)]
@@ -680,6 +686,20 @@ pub fn generate(rng: &mut Rng, tier: Tier) -> Case {
     for _ in 0..n {
         units.push(g.unit());
     }
+    if g.rng.below(8) == 0 {
+        let at = g.rng.range(1, units.len() as u32) as usize;
+        units.insert(
+            at,
+            Unit {
+                lines: vec![": >/work/script.sh".to_string()],
+                out: vec![],
+                tells: vec![],
+                status: Some(0),
+                truncates_script: true,
+                ..Default::default()
+            },
+        );
+    }
     // optional ending
     let mut error_interactive = false;
     match g.rng.below(10) {
@@ -1254,6 +1274,33 @@ fn run_one(c: &Case, variant: Variant, cfg: &SimConfig, decider: Decider) -> (Ob
             |_, _| true,
         );
         let v = check_cut(&prefix, variant, &obs);
+        return (obs, v);
+    }
+    if variant == Variant::ScriptFile
+        && let Some(j) = c.units.iter().position(|u| u.truncates_script)
+    {
+        // the script empties itself: the units up to that line run, nothing else
+        let t: usize = c.units[..=j].iter().map(|u| u.lines.iter().map(|l| l.len() + 1).sum::<usize>()).sum();
+        let mut plain = c.clone();
+        plain.interactive = false;
+        let (_, prefix) = expect_cut(&plain, t as u32);
+        let full = expect(&plain);
+        let mut spec = spec_of(&prefix, variant);
+        spec.script = full.script.clone();
+        let obs = run_script_with(&spec, cfg, decider, |_| {}, |_, _| true);
+        // (the offsets of `tell` are those of descriptor 0, which is not the
+        // script here: output and status only)
+        let mut v = check_liveness(&obs);
+        if v.is_none() && (obs.stdout != prefix.stdout || obs.status != format!("exited:{}", prefix.status)) {
+            v = Some((
+                "trace".into(),
+                "self-truncated-script".into(),
+                format!(
+                    "the script file empties itself (`: >/work/script.sh`): the commands before that line print {:?} and nothing more is read (status {}); observed stdout {:?} status {}\nstderr {:?}",
+                    prefix.stdout, prefix.status, obs.stdout, obs.status, obs.stderr
+                ),
+            ));
+        }
         return (obs, v);
     }
     // (only a shell reading its standard input is made interactive)
